@@ -120,18 +120,19 @@ def elide(s):
     b = len(s) - len(s.rstrip())
     head, tail = core_[:24], core_[-24:]
     mid = core_[24:-24]
-    h = zlib.crc32(mid.encode("utf-8", "surrogatepass")) & 0x3FFFFFFF
+    # case-folded: a long KEY is upper-cased by the loader, and Upper() must commute with elision
+    h = zlib.crc32(mid.upper().encode("utf-8", "surrogatepass")) & 0x3FFFFFFF
     return cps(s[:a] + head) + [-(2 + h)] + cps(tail + (s[len(s) - b:] if b else ""))
 
 
 def elide_obj(o_real, fmt):
     """projection with elision (param level)"""
     if fmt == "sm":
-        return {"items": [{"k": cps(k), "v": elide(v)} for k, v in o_real.items()],
+        return {"items": [{"k": elide(k), "v": elide(v)} for k, v in o_real.items()],
                 "charts": [{"fields": [elide(c.get(f)) for f in SMF],
                             "extra": [elide(x) for x in (c.extradata or [])]} for c in o_real.charts]}
-    return {"items": [{"k": cps(k), "v": elide(v)} for k, v in o_real.items()],
-            "charts": [[{"k": cps(k), "v": elide(v)} for k, v in c.items()] for c in o_real.charts]}
+    return {"items": [{"k": elide(k), "v": elide(v)} for k, v in o_real.items()],
+            "charts": [[{"k": elide(k), "v": elide(v)} for k, v in c.items()] for c in o_real.charts]}
 
 
 MULTI = ("ATTACKS", "DISPLAYBPM")
